@@ -60,6 +60,10 @@ def generate(ck):
         Tpc, ppc = wl.pseudocritical(rng)
         lo = wl.f(np.exp(rng.uniform(np.log(0.02), np.log(3.0))))
         hi = wl.f(rng.uniform(max(2 * lo, 1.0), 30.0))
+        if i < 4 or i % 9 == 4:
+            hi = 30.0  # the upper end of the correlation's range (Z above 3 at low reduced temperature)
+            if i % 9 == 4:
+                Tr = wl.f(rng.uniform(1.05, 1.25))
         o = wl.oil_params(rng)
         pb = wl.bubblepoint(*o)
         nearly_dead = False
